@@ -33,7 +33,8 @@ HERE = os.path.dirname(os.path.dirname(os.path.abspath(__file__)))
 RULE = ('every well-formed history of length <= H over two messages from {write, increment_attempts, set_timestamp, '
         'set_recipients_delivered, remove} on DiskStorage (chunk size 48 so an envelope takes >= 5 chunk writes) x every crash '
         'point = every prefix of the file-system effect log; thorough adds two operations overlapping (aio completions '
-        'interleaved) and histories produced by a real Queue run.  A crash state is non-trivial when it lies strictly inside '
+        'interleaved); both tiers add histories produced by a real Queue run (enqueue, transient failure, retry bookkeeping, '
+        'partial delivery, remove) where the requirement is what the queue still owes at each effect.  A crash state is non-trivial when it lies strictly inside '
         'an operation (a temp file exists or an operation is half applied).')
 ASSUMPTIONS = ['process death, not power loss: the kernel keeps completed writes, so crash states are prefixes of the effect log',
                'rename and unlink are atomic; the in-memory FS is validated against the real FS + real pyaio on the same histories']
@@ -340,11 +341,88 @@ def conformance(hist, mem_fs, mem_ids, mem_rets):
         shutil.rmtree(base, ignore_errors=True)
 
 
+# ---- histories produced by a real Queue run on the disk backend
+QUEUE_RUNS = [['temp', 'ok'], ['map:ot', 'ok'], ['map:tp', 'temp', 'ok'], ['temp', 'temp', 'temp'], ['perm'], ['map:to', 'map:o'],
+              ['boom', 'map:ot', 'perm'], ['ok']]
+
+
+def check_queue_run(outcomes, res, messages=1):
+    """Run the real Queue over DiskStorage on the in-memory FS with the given relay outcomes; after every FS effect
+    remember which recipients the queue still owes; then crash at every prefix of the effect log and recover."""
+    from worlds.queue_world import QueueWorld, outcome_menu
+    from conformance.queue_real import DataChooser
+    menu = outcome_menu(2, sequences=False)
+    idx = {o: i for i, o in enumerate(menu)}
+    menu1 = outcome_menu(1, sequences=False)
+    data = []
+    n_left = 2
+    for o in outcomes:
+        m = menu if n_left == 2 else menu1
+        data.append(m.index(o) if o in m else 0)
+        if o.startswith('map:'):
+            n_left = sum(1 for c in o[4:] if c == 't') or n_left
+    ch = DataChooser(data)
+    cfg = dict(backend='disk', backoff='r0x2', n=2, messages=messages, chunk_size=48, menu=dict(sequences=False))
+    qw = QueueWorld(ch, cfg)
+    owed = {}
+
+    def snap(k):
+        # requirement for the disk state after k effects = what the queue owes right now
+        owed[k] = {qid: (led['sender'], list(led['outstanding'])) for qid, led in qw.ledger.items()
+                   if led['outstanding'] and not led['removed'] and not led['bounce']}
+    orig_build = qw.build_backend
+
+    def build(w):
+        st = orig_build(w)
+        qw.fs.on_effect = snap
+        return st
+    qw.build_backend = build
+    qw.run()
+    fs = qw.fs
+    n = len(fs.log)
+    snap(n)
+    for k in range(0, n + 1):
+        # the latest requirement known while the disk was in state k is the one recorded at effect k
+        req = owed.get(k, {})
+        rec = recover(fs.snapshot(k))
+        res.evaluations += 1
+        res.count('queue_run_crash_states')
+        res.interesting(('queue-run', tuple(outcomes), k))
+        res.outcome((tuple(outcomes), k, repr(rec['load'])[:120]))
+        rep = {'hist': None, 'overlap': None, 'choices': None, 'k': k, 'queue_run': list(outcomes)}
+        if isinstance(rec['load'], tuple):
+            res.violation({'kind': 'load-raised', 'exception': rec['load'][1], 'during': 'queue-run'},
+                          'queue run %r crash after effect %d/%d: load() raised %s' % (outcomes, k, n, rec['load'][1:]), rep)
+            continue
+        listed = dict((i, t) for t, i in rec['load'])
+        for qid, (sender, outstanding) in sorted(req.items()):
+            g = rec['get'].get(qid)
+            if qid not in listed or g is None or (isinstance(g, tuple) and g and g[0] == 'raised'):
+                res.violation({'kind': 'owed-message-not-recovered', 'during': 'queue-run'},
+                              'queue run %r crash after effect %d/%d (%s): message %s with outstanding %r is not recovered (load %r, get %r)'
+                              % (outcomes, k, n, fs.log[k - 1][0] if k else 'start', qid, outstanding, rec['load'], g), rep)
+                continue
+            missing = [r for r in outstanding if r not in g[2]]
+            if missing:
+                res.violation({'kind': 'outstanding-recipient-lost-by-crash', 'during': 'queue-run'},
+                              'queue run %r crash after effect %d/%d: message %s recovered with recipients %r, outstanding were %r'
+                              % (outcomes, k, n, qid, g[2], outstanding), rep)
+            if not any(a[0] == sender for a in rec['attempted']):
+                res.violation({'kind': 'not-resumed', 'during': 'queue-run'},
+                              'queue run %r crash after effect %d/%d: a fresh queue never attempted %s' % (outcomes, k, n, qid), rep)
+    res.states += n + 1
+    res.transitions += n
+    return n
+
+
 def configs(tier, seed):
     H = 4 if tier == 'quick' else 5
     hs = list(histories(H))
     k = 32 if tier == 'quick' else 96
     cfgs = [{'mode': 'seq', 'H': H, 'k': i, 'of': k} for i in range(k)]
+    cfgs += [{'mode': 'queue', 'run': r, 'messages': 1} for r in QUEUE_RUNS]
+    if tier == 'thorough':
+        cfgs += [{'mode': 'queue', 'run': r, 'messages': 2} for r in QUEUE_RUNS[:4]]
     if tier == 'thorough':
         opsA = [('inc', 'A'), ('ts', 'A'), ('dlv', 'A'), ('rm', 'A')]
         opsB = [('write', 'B'), ('inc', 'B'), ('dlv', 'B'), ('rm', 'B')]
@@ -356,6 +434,10 @@ def configs(tier, seed):
 
 def run_config(cfg, tier, seed):
     res = Result()
+    if cfg['mode'] == 'queue':
+        n = check_queue_run(cfg['run'], res, cfg.get('messages', 1))
+        res.sample({'queue_run_outcomes': cfg['run'], 'fs_effects': n})
+        return res.as_dict()
     if cfg['mode'] == 'seq':
         for i, h in enumerate(histories(cfg['H'])):
             if i % cfg['of'] != cfg['k']:
@@ -398,6 +480,11 @@ def vacuity(counters, tier):
 
 def replay(rep):
     res = Result()
+    if rep.get('queue_run'):
+        check_queue_run(rep['queue_run'], res)
+        if res.violations:
+            return True, res.violations[0]['message']
+        return False, 'every crash state of the queue run recovers what the queue owes'
     hist = [tuple(o) for o in rep['hist']] if rep.get('hist') else None
     if rep.get('k', 0) == -1:
         fs, ids, marks, rets = run_history(hist)
